@@ -38,6 +38,7 @@ pub struct MithrilNetworkConfigurationForEpoch {
     pub signed_entity_types_config: SignedEntityTypesConfig,
 }
 pub struct MithrilNetworkConfiguration {
+    pub epoch: Epoch,
     pub configuration_for_aggregation: MithrilNetworkConfigurationForEpoch,
     pub configuration_for_next_aggregation: MithrilNetworkConfigurationForEpoch,
     pub configuration_for_registration: MithrilNetworkConfigurationForEpoch,
